@@ -33,5 +33,12 @@ mod responder;
 #[cfg(feature = "case-resumption")]
 pub mod resumption;
 
+/// Verification hook (off by default): re-export of the crate-private CASE protocol helper
+/// so that `CaseP::validate_certs` can be driven directly by the verification harness.
+#[cfg(feature = "verif")]
+pub mod verif {
+    pub use super::casep::CaseP;
+}
+
 // Two certificates (NOC and ICAC), plus ECDSA etc -> approx 950b, doing 1024 to be safe
 const CASE_LARGE_BUF_SIZE: usize = MAX_CERT_TLV_LEN * 2 + 224;
